@@ -113,6 +113,15 @@ def scenarios():
                            "Parameters": {"FunctionName": FN + "good", "Payload": {"a": 1}}, "Next": "L2"}, "L2": task("good2")})]}}},
         tasks={"bad": lambda p, n: BOOM, "good": lambda p, n: {"ok": 1}, "good2": lambda p, n: {"ok": 2}},
         want=("FAILED", "Boom", None))
+    # M: the Parallel's Catch handled one branch's failure; the sibling's task (not cancelled: known finding) later replies
+    # with an ERROR of its own -- which must not fail the execution that already went on through the Catch
+    sc["caught-then-sibling-errors"] = dict(
+        asl={"StartAt": "P", "States": {
+            "P": {"Type": "Parallel", "Next": "After", "Catch": [{"ErrorEquals": ["Boom"], "ResultPath": "$.err", "Next": "Recover"}],
+                  "Branches": [br("F", {"F": task("bad")}), br("G", {"G": task("bad2")})]},
+            "After": {"Type": "Pass", "End": True}, "Recover": {"Type": "Pass", "End": True}}},
+        tasks={"bad": lambda p, n: BOOM, "bad2": lambda p, n: {"errorType": "Late", "errorMessage": "sibling failed later"}},
+        want=None)
     return sc
 
 
@@ -141,8 +150,20 @@ def failures(seed=0, tier="quick", only=None, **_):
 
         def check(sim, trace, sc=sc, name=name):
             probs = S.generic_invariants(sim)
-            status, error, output = sc["want"]
             rec = sim.record() or {}
+            if sc["want"] is None:
+                # outcome depends on which branch's reply is handled first: whichever failure the Parallel sees first decides
+                # (Boom is caught -> SUCCEEDED with $.err.Error == Boom; Late is not -> FAILED with Late), and it decides ONCE
+                first = [c[0] for c in sim.task_replies][:1] if hasattr(sim, "task_replies") else []
+                ok = (rec.get("status") == "SUCCEEDED" and contains(sim.output(), {"err": {"Error": "Boom"}})) or \
+                     (rec.get("status") == "FAILED" and rec.get("error") == "Late")
+                if not ok:
+                    probs.append("C06: outcome %s / %r / %r is neither the caught Boom nor the uncaught Late" % (
+                        rec.get("status"), rec.get("error"), sim.output()))
+                probs, hit = known.split("natives.c06", name, probs, sim=sim)
+                seen_known.update(hit)
+                return probs
+            status, error, output = sc["want"]
             if rec.get("status") != status:
                 probs.append("C06: status %s, expected %s" % (rec.get("status"), status))
             if error is not None and rec.get("error") != error:
